@@ -583,13 +583,62 @@ func exprStrShort(e ast.Expr) string {
 
 // commutativeBody returns "" if the statements only perform stores keyed by key, guarded tests and error exits.
 func commutativeBody(info *types.Info, list []ast.Stmt, key types.Object) string {
+	return commutativeBodyK(info, list, map[types.Object]bool{key: true})
+}
+
+func commutativeBodyK(info *types.Info, list []ast.Stmt, keys map[types.Object]bool) string {
 	usesKey := func(e ast.Expr) bool {
 		id := identOf(e)
-		return id != nil && key != nil && info.Uses[id] == key
+		return id != nil && info.Uses[id] != nil && keys[info.Uses[id]]
+	}
+	// a local of the iteration bound to a call-free expression (a copy of the key is the key)
+	localDef := func(lhs []ast.Expr, rhs []ast.Expr, defs bool) bool {
+		if len(lhs) != len(rhs) {
+			return false
+		}
+		for i, l := range lhs {
+			id := identOf(l)
+			if id == nil || !callFree(rhs[i]) {
+				return false
+			}
+			o := info.Defs[id]
+			if o == nil {
+				return false
+			}
+			if usesKey(rhs[i]) {
+				keys[o] = true
+			}
+		}
+		return true
 	}
 	for _, s := range list {
 		switch s := s.(type) {
+		case *ast.DeclStmt:
+			gd, ok := s.Decl.(*ast.GenDecl)
+			if !ok || gd.Tok != token.VAR {
+				return "declaration inside the loop"
+			}
+			for _, sp := range gd.Specs {
+				vs := sp.(*ast.ValueSpec)
+				var lhs []ast.Expr
+				for _, nm := range vs.Names {
+					lhs = append(lhs, nm)
+				}
+				if len(vs.Values) > 0 && !localDef(lhs, vs.Values, true) {
+					return "a local of the iteration is initialised by a call"
+				}
+			}
 		case *ast.AssignStmt:
+			if s.Tok == token.DEFINE {
+				if localDef(s.Lhs, s.Rhs, true) {
+					continue
+				}
+				return "a local of the iteration is initialised by a call"
+			}
+			// `_ = x` keeps a variable used
+			if s.Tok == token.ASSIGN && len(s.Lhs) == 1 && identOf(s.Lhs[0]) != nil && identOf(s.Lhs[0]).Name == "_" && callFree(s.Rhs[0]) {
+				continue
+			}
 			for _, l := range s.Lhs {
 				ix, ok := unparen(l).(*ast.IndexExpr)
 				if !ok || !usesKey(ix.Index) {
@@ -625,17 +674,17 @@ func commutativeBody(info *types.Info, list []ast.Stmt, key types.Object) string
 					}
 				}
 			}
-			if why := commutativeBody(info, s.Body.List, key); why != "" {
+			if why := commutativeBodyK(info, s.Body.List, keys); why != "" {
 				return why
 			}
 			if s.Else != nil {
 				switch e := s.Else.(type) {
 				case *ast.BlockStmt:
-					if why := commutativeBody(info, e.List, key); why != "" {
+					if why := commutativeBodyK(info, e.List, keys); why != "" {
 						return why
 					}
 				case *ast.IfStmt:
-					if why := commutativeBody(info, []ast.Stmt{e}, key); why != "" {
+					if why := commutativeBodyK(info, []ast.Stmt{e}, keys); why != "" {
 						return why
 					}
 				}
@@ -652,6 +701,21 @@ func commutativeBody(info *types.Info, list []ast.Stmt, key types.Object) string
 			if len(s.Results) == 1 {
 				if tv, ok := info.Types[s.Results[0]]; ok && typeStr(tv.Type) != "error" && tv.Value == nil {
 					return "a value is returned from inside the loop (which entry is seen first depends on iteration order)"
+				}
+			}
+		case *ast.SwitchStmt:
+			if s.Init != nil || (s.Tag != nil && !callFree(s.Tag)) {
+				return "switch with an initialiser or a call in its tag"
+			}
+			for _, cl := range s.Body.List {
+				cc := cl.(*ast.CaseClause)
+				for _, e := range cc.List {
+					if !callFree(e) {
+						return "a case of a switch calls a function"
+					}
+				}
+				if why := commutativeBodyK(info, cc.Body, keys); why != "" {
+					return why
 				}
 			}
 		case *ast.BranchStmt:
@@ -891,6 +955,12 @@ func resolveDraw(w *World, mk *Func, depth int) (string, string) {
 	arg := func(e ast.Expr) string {
 		if tv, ok := info.Types[e]; ok && tv.Value != nil {
 			return tv.Value.ExactString()
+		}
+		// int(p): the draw is over integers; a parameter converted to int is that parameter as far as ranges go
+		if cv, ok := unparen(e).(*ast.CallExpr); ok && len(cv.Args) == 1 {
+			if tv, ok := info.Types[cv.Fun]; ok && tv.IsType() && isIntType(tv.Type) {
+				e = cv.Args[0]
+			}
 		}
 		if id := identOf(e); id != nil {
 			if s, ok := pname[info.Uses[id]]; ok {
